@@ -56,7 +56,7 @@ def powLK (W : Nat) (r : Ring) (raw exp : Nat) : Nat :=
 
 /-- work estimate (word operations) of one buffer-level `pow`: the driver runs `powLK` below this budget and
     the value-level `powL` (proved equal) above it, to keep the check's running time bounded -/
-def powBufferBudget : Nat := 3000000
+def powBufferBudget : Nat := 150000
 
 /-- `Reduced::pow` with every kernel mirrored -/
 def powRawKL (W : Nat) (r : Ring) (raw exp : Nat) : Nat :=
